@@ -67,10 +67,9 @@ theorem merge_hunks_arity (terms : List Bytes) (hodd : terms.length % 2 = 1) (le
 /-! ### identity laws -/
 
 /-- **`SlicesRespectEquality`** for the line diff that `merge_inner` computes: in every hunk, inputs
-with equal contents have equal slices.  (Decidable; the driver evaluates it on every request of the
-correspondence run and the harness treats a `0` as a disagreement.  It holds because two equal
-non-base inputs are diffed against the base by the same function, and the base diffed against an
-equal input matches token by token — `diff_self_diagonal`, not proved here.) -/
+with equal contents have equal slices.  (Decidable; proved for every merge below —
+`slices_respect_equality` — and additionally evaluated by the driver on every request of the
+correspondence run.) -/
 def SlicesRespectEquality (terms : List Bytes) : Prop := lineDiffSre terms = true
 
 instance (terms : List Bytes) : Decidable (SlicesRespectEquality terms) := by
@@ -197,6 +196,48 @@ theorem merge_identical_sides_partial (a b : Bytes) (level : HunkLevel)
     (hsre : SlicesRespectEquality [a, b, a]) : tryMerge [a, b, a] level .accept = some a := by
   apply merge_cancels_to_side_partial [a, b, a] (by simp) level .accept a _ hsre
   simp [trivialMerge]
+
+/-! ### identity laws, unconditional -/
+
+/-- **Slices respect equality** holds for every merge: equal non-base inputs are diffed against the
+base by the same function and matched positions have a unique partner (`win_partner_unique`); the
+base against an equal input is matched only on the diagonal (`unchangedWords_diag`, the weak form of
+`diff_self_diagonal`, which is all the identity law needs). -/
+theorem slices_respect_equality (terms : List Bytes) (hodd : terms.length % 2 = 1) :
+    SlicesRespectEquality terms := by
+  obtain ⟨_, hlen⟩ := length_removes_adds terms hodd
+  apply lineDiffSre_holds
+  intro h
+  have := congrArg List.length h
+  simp only [diffInputs, List.length_nil] at this
+  omega
+
+/-- **Identity law.**  For every odd number of terms, both hunk levels and both same-change settings:
+if the sides and bases cancel pairwise in the sense of C02 (`trivial_merge` on the whole contents
+resolves to `v`), the content merge returns `v` exactly. -/
+theorem merge_cancels_to_side (terms : List Bytes) (hodd : terms.length % 2 = 1)
+    (level : HunkLevel) (sc : SameChange) (v : Bytes) (hv : trivialMerge terms sc = some v) :
+    tryMerge terms level sc = some v ∧ merge terms level sc = some [v] ∧
+      mergeHunks terms level sc = .resolved v :=
+  have h := merge_cancels_to_side_partial terms hodd level sc v hv (slices_respect_equality terms hodd)
+  ⟨h, (try_merge_iff_merge terms level sc v).mp h, (try_merge_iff_merge_hunks terms level sc v).mp h⟩
+
+/-- `merge [a, b, b] = a` — rebasing onto an unchanged base is a no-op -/
+theorem merge_abb (a b : Bytes) (level : HunkLevel) (sc : SameChange) : merge [a, b, b] level sc = some [a] :=
+  (try_merge_iff_merge _ level sc a).mp (merge_abb_partial a b level sc (slices_respect_equality _ (by simp)))
+
+/-- `merge [b, b, a] = a` -/
+theorem merge_bba (a b : Bytes) (level : HunkLevel) (sc : SameChange) : merge [b, b, a] level sc = some [a] :=
+  (try_merge_iff_merge _ level sc a).mp (merge_bba_partial a b level sc (slices_respect_equality _ (by simp)))
+
+/-- identical sides merge to that content (same-change rule) -/
+theorem merge_identical_sides (a b : Bytes) (level : HunkLevel) : merge [a, b, a] level .accept = some [a] :=
+  (try_merge_iff_merge _ level .accept a).mp
+    (merge_identical_sides_partial a b level (slices_respect_equality _ (by simp)))
+
+/-- a resolved merge is returned unchanged -/
+theorem merge_resolved (a : Bytes) (level : HunkLevel) (sc : SameChange) : merge [a] level sc = some [a] :=
+  (merge_cancels_to_side [a] (by simp) level sc a (by simp [trivialMerge])).2.1
 
 /-! ### non-vacuity -/
 example : SlicesRespectEquality [[97, 10, 98, 10], [97, 10], [97, 10]] := by decide
